@@ -349,6 +349,6 @@ pub fn run(args: &Args) -> i32 {
         "box-note",
         serde_json::json!({"triples_covered": (kmax + 1) * (smax + 1) * (tmax + 1), "entity_kinds": 2}),
     );
-    check.section("random", rand_strategy(), check.tier.pick(60_000, 6_000_000), rand_case);
+    check.section("random", rand_strategy, check.tier.pick(60_000, 6_000_000), rand_case);
     check.finish()
 }
